@@ -165,7 +165,7 @@ int main(int argc, char **argv)
 			is_float = kind[0] == 'f';
 			if (obj) { fprintf(stderr, "init while open\n"); return 2; }
 			obj = digital_rf_create_write_hdf5(dir, get_type(kind[0], size, order[0]), subdir_s, file_ms, start, n, d,
-											   uuid, comp, checksum, is_complex, nsub, cont, 0);
+											   strcmp(uuid, "@EMPTY@") == 0 ? "" : uuid, comp, checksum, is_complex, nsub, cont, 0);
 			rc = obj ? 0 : -1;
 			call = 0;
 		}
